@@ -1,6 +1,17 @@
 (* Props/C01.v -- serialize/parse round trip is lossless for every object and option set.
    Model: Model/Schema.v (schema interpreter; encode), Model/Serialize.v (options),
-   Spec/JsonValue.v (what "the same JSON value" means).                       *)
+   Spec/JsonValue.v (what "the same JSON value" means).
+
+   SCOPE of the round-trip theorems below (what they do NOT cover is named here once):
+   - variant hypotheses: every one needs vr_year_pad vr = true; the class lists of the generated tables
+     (lib_proved_idsw, lib_parse_idsw, lib_bundle_ids, ...) are evaluated at variant_repaired, where init_ok uses
+     vr_positional_none, md_ok uses vr_md20_default_ms and bundle_ok uses vr_bundle20_recheck;
+   - input: plain_dict / plain_json (Proofs/C01KindsAll.v) forbid ANY member named `extensions` or `custom_properties`
+     at any depth and any null / [] member value: no object carrying an extension -- registered or custom -- is
+     covered (custom properties are); a 2.1 observable needs its id (id_given);
+   - level: "every class has a theorem" (lib_unproved_ids = []) is constructor level (RConstruct); at stix2.parse
+     level (RParse) 89 of the 123 classes are covered -- Bundle and both ObservedData classes are not;
+   - the JSON text (separators, indentation, byte identity) is not modelled: serialize_value yields ordered members. *)
 From Coq Require Import NArith ZArith List String Bool Permutation.
 From V Require Import Base.UString Base.Json Model.SchemaTypes Model.PyBase Model.Schema Model.Serialize.
 From V Require Import Spec.JsonValue Proofs.C01Basics Proofs.C01Serialize.
@@ -15,7 +26,8 @@ Theorem options_same_value : forall (o : sopts) (obj : pval),
 Proof. exact C01Serialize.options_same_value. Qed.
 Print Assumptions options_same_value.
 
-(* indent and compact separators do not reach the members at all *)
+(* indent and compact separators do not reach the members at all.  DEFINITIONAL in this model: serialize_value does
+   not read o_indent / o_compact (they belong to the unmodelled text layer); the proof is reflexivity. *)
 Theorem indent_compact_irrelevant : forall p i s n1 c1 n2 c2 obj,
   serialize_value {| o_pretty := p; o_incl := i; o_sort_keys := s; o_indent := n1; o_compact := c1 |} obj =
   serialize_value {| o_pretty := p; o_incl := i; o_sort_keys := s; o_indent := n2; o_compact := c2 |} obj.
@@ -23,7 +35,9 @@ Proof. exact C01Serialize.indent_compact_irrelevant. Qed.
 Print Assumptions indent_compact_irrelevant.
 
 (* include_optional_defaults: the two encoders differ exactly by the members that an object's
-   defaulted-optional list names, at every depth of the stored value *)
+   defaulted-optional list names, at every depth of the stored value.  Close to DEFINITIONAL: it re-reads the
+   `incl || not defaulted` test of Schema.encode through the relation `omitted`; a model fact, not a statement
+   about the written text. *)
 Theorem encoders_differ_by_defaulted : forall v, omitted v (encode false v) (encode true v).
 Proof. exact C01Serialize.encoders_differ_by_defaulted. Qed.
 Print Assumptions encoders_differ_by_defaulted.
@@ -109,7 +123,8 @@ Print Assumptions reserialize_identical_partial.
 (* pretty_toplevel_spec_order, partial (the covered classes; plain input): pretty=True writes the top-level
    members of a constructed object -- those that are kept: all of them, or those not defaulted -- in the
    object's own order (pretty_toplevel_order above), and that order is the class's property list in class
-   (specification) order followed by the custom property names sorted.  Side conditions of the serialization
+   (specification) order followed by the custom property names, which are a fixpoint of usort (sorted by code
+   points, no duplicates: `usort customs = customs`).  Side conditions of the serialization
    layer: no all-digit top-level key, values equal to themselves under Python == (no NaN). *)
 Theorem pretty_toplevel_spec_order_partial :
   forall vr ev w pattern_ok selectors_ok, vr_year_pad vr = true ->
@@ -241,7 +256,7 @@ Example lib_coverage_count :
 Proof. split; vm_compute; reflexivity. Qed.
 
 (* ... and which of them are parse entry points covered by roundtrip_equal_parse_partial: lib_parse_idsw (89 at the
-   current tables, incl. both MarkingDefinition classes and 2.1 Indicator); lib_parse_ids (86) is the set of the
+   current tables, incl. both MarkingDefinition classes and 2.1 Indicator); lib_parse_ids (86, closed_ok) is kept for reference; the parse-level C04 theorems use lib_parse_idsi (87): the
    parse-level C04 theorems.  OUTSIDE at parse level: Bundle (constructor level only), ObservedData. *)
 Theorem lib_parse_classes_covered :
   registry_ok lib = true /\
